@@ -351,8 +351,9 @@ func suiteDelete(h *H) {
 			names = append(names, []string{"new", "a/new", "zzz", "a.b/x"}[h.rng.Intn(4)])
 		}
 		ioerr := 0
-		if h.rng.Intn(8) == 0 {
-			ioerr = 1
+		if h.rng.Intn(6) == 0 {
+			// every value a sender can report (tridge ORs IOERR_GENERAL=1, IOERR_VANISHED=2, IOERR_DEL_LIMIT=4)
+			ioerr = h.pick(1, 1, 2, 3, 4, 6, 7, 1<<20, 1<<31-1)
 		}
 		var rules []string
 		if h.rng.Intn(3) == 0 {
